@@ -505,3 +505,60 @@ Fixpoint json_rows (c : coll) (depth : nat) {struct c} : list row :=
 Definition names_empty (c : coll) : bool := match task_names c with [] => true | _ => false end.
 
 Definition build (it : item) : result coll := build_with names_empty it.
+
+(** * Scoped and depth-limited listings: [--list <root>] and [--list-depth N]
+    ([Program._make_pairs] in general; [dl] = 0 is "no limit").  A collection
+    row that is shown truncated carries its tallies ("2 tasks", "1
+    collections"; zero counts are left out) in the alias column. *)
+Definition tallies (sc : coll) : list string :=
+  (match List.length (c_tasks sc) with O => [] | n => [(nat_str n ++ " tasks")%string] end) ++
+  (match List.length (c_subs sc) with O => [] | n => [(nat_str n ++ " collections")%string] end).
+
+Fixpoint pair_rows (nested rooted : bool) (dl : nat) (c : coll) (anc : list string) {struct c} : list row :=
+  match c with
+  | Coll _ tasks _ subs dflt ad _ =>
+      let depth := List.length anc in
+      let dots := match anc with [] => rooted | _ => true end in
+      let rel (s : string) : string := if dots then ("." ++ s)%string else s in
+      let apath := join "." anc in
+      let prefix := if negb (String.eqb apath "") && rooted then ("." ++ apath)%string else apath in
+      let task_rows :=
+        map (fun kt =>
+               let als := map (fun a => rel (transform ad a))
+                              (sort_by (fun x => x) (t_aliases (snd kt))) in
+               let isd := is_default dflt (fst kt) in
+               if nested then
+                 (depth, (if isd then (rel (fst kt) ++ "*")%string else rel (fst kt)), als,
+                  Some (t_id (snd kt)))
+               else
+                 (0, (prefix ++ rel (fst kt))%string,
+                  (if isd then match anc with [] => [] | _ => [prefix] end else []) ++
+                  map (fun a => (prefix ++ a)%string) als,
+                  Some (t_id (snd kt))))
+            (sort_by fst tasks) in
+      let truncate := negb (Nat.eqb dl 0) && Nat.leb dl (S depth) in
+      task_rows ++
+      flat_map (fun k =>
+                  (fix find (l : list (string * coll)) {struct l} : list row :=
+                     match l with
+                     | [] => []
+                     | (k', sc) :: l' =>
+                         if String.eqb k k' then
+                           (if nested then [(depth, rel k, (if truncate then tallies sc else []), None)]
+                            else if truncate then [(0, (apath ++ rel k)%string, tallies sc, None)]
+                            else []) ++
+                           (if truncate then [] else pair_rows nested rooted dl sc (anc ++ [k]))
+                         else find l'
+                     end) subs)
+               (sort_by (fun x => x) (akeys subs))
+  end.
+
+(** [Collection.subcollection_from_path]: raw keys, no normalisation *)
+Fixpoint sub_at (c : coll) (parts : list string) : option coll :=
+  match parts with
+  | [] => Some c
+  | p :: rest => match assoc p (c_subs c) with
+                 | Some sc => sub_at sc rest
+                 | None => None
+                 end
+  end.
